@@ -701,9 +701,28 @@ def call_builtin(ex, name: str, args, kwargs, st: State, node) -> Term:
         res = mk("call", mk("builtin", "open"), tuple(A), tuple(sorted(kwargs.items())), evt)
         ex.emit("extcall", node, st, name="open", recv=None, args=tuple(A), kwargs=dict(kwargs), result=res, pure=False)
         return res
+    if name in ("iter",) and n == 1 and ex.sym_bytes:
+        # concrete-control scenarios: an iterator over items known one by one is an object of its own that next() consumes
+        its_ = ex.iter_items(A[0], st)
+        o0_ = ex.obj(st, A[0])
+        if its_ is not None and len(its_) <= 4096 and not (o0_ is not None and getattr(o0_, "is_iter", False)):
+            r_ = ex.new_obj(st, "list", label="iterator")
+            oi_ = ex.obj(st, r_)
+            oi_.items = list(its_)
+            oi_.is_iter = True
+            return r_
     if name in ("iter",) and n == 1:
         return A[0]
     if name == "next" and ex.sym_bytes and A:
+        oi_ = ex.obj(st, A[0])
+        if oi_ is not None and getattr(oi_, "is_iter", False) and oi_.exact:
+            if oi_.items:
+                oi_.version += 1
+                return oi_.items.pop(0)
+            if n > 1:
+                return A[1]
+            ex.emit("raise", node, st, exc="StopIteration", exc_term=mk("builtin", "StopIteration"), args=(), reraise=False, implicit=True, construct="next() of an exhausted iterator")
+            raise PathDead()
         # concrete-control scenarios: the first element of a freshly built generator / list with known elements
         its = ex.iter_items(A[0], st)
         if its is not None:
